@@ -51,6 +51,7 @@ class C14Holder(_ASTNode):
     payload: _Any = _dc.field(default=None, compare=False)
     kid: _ASTNode | None = None
     kids: tuple[_ASTNode, ...] = ()
+    hnote: str = _dc.field(default="", compare=False, hash=True)     # non-comparable (what `hash=` says is irrelevant)
 
 
 def opaque_value_cases(rng, n):
@@ -58,6 +59,30 @@ def opaque_value_cases(rng, n):
     *equal* values, i.e. for such objects the very same ones; replace() keeps the very same objects in the untouched fields"""
     import gc
     for _ in range(n):
+        # the whole scenario runs under a random setting of the behaviour-neutral configuration (trace logging on / off)
+        cv = zoo.config_variation(rng, 0.5)
+        cv.__enter__()
+        try:
+            yield from _opaque_value_cases_one(rng, f" [TRACE_LOGGING={cv.on}]")
+        finally:
+            cv.__exit__()
+
+
+def _opaque_value_cases_one(rng, cfg_note):
+    import gc
+    for _ in range(1):
+        # a property that is non-comparable although it declares hash=True: replacing only it keeps id and content_id
+        hx = C14Holder(key=1, hnote="a")
+        hr = hx.replace(hnote="b")
+        fh = None
+        if hr.id != hx.id or hr.content_id != hx.content_id:
+            fh = (f"replace() of a non-comparable property (field(compare=False, hash=True)) changed id / content_id: "
+                  f"{hx.id} -> {hr.id}")
+        elif hr.hnote != "b" or hr.key != 1:
+            fh = "replace(): the changed field does not hold the given value"
+        yield Case("directed:noncompare-hash-flag", None, None, True, "Holder(hnote=field(compare=False, hash=True)).replace(hnote=…)" + cfg_note,
+                   oracle_fail=fh, sig="copy|directed|noncompare-hash-flag")
+        del hx, hr
         t, u, w = _Opaque(rng.randrange(100)), _Opaque(rng.randrange(100)), _Opaque(rng.randrange(100))
         inner = C14Holder(key=(u, 1), payload=[w])            # values nested in a tuple / a (non-comparable) list
         x = C14Holder(key=t, payload=u, kid=inner, kids=(C14Holder(key=w), C14Holder(payload=t)))
@@ -118,7 +143,7 @@ def opaque_value_cases(rng, n):
                 f3 = f"duplicate(): the copy shares the original {type(a).__name__} object (child of a multiply-inheriting node)"
         if f3 is None and not (hd == holder):
             f3 = "duplicate() is not == to the original (multiple inheritance)"
-        yield Case("directed:multiple-inheritance", None, None, True, "Tup((MBoth(lk, rk), MLeft(lk), MRight(rk))).duplicate()",
+        yield Case("directed:multiple-inheritance", None, None, True, "Tup((MBoth(lk, rk), MLeft(lk), MRight(rk))).duplicate()" + cfg_note,
                    oracle_fail=f3, sig="copy|directed|multiple-inheritance")
         del both, holder, hd, pa, pb
         # two DIFFERENT classes with the same name and equal content in one tree (their base ids coincide): every copy is
@@ -145,7 +170,7 @@ def opaque_value_cases(rng, n):
         yield Case("directed:same-name-classes", None, None, True, "Tup((A(v=5), B(v=5), A(v=5))) with two classes named CopyTwin: duplicate()",
                    oracle_fail=f4, sig="copy|directed|same-name-classes")
         del tt, td, ta, tb, every, TA, TB
-        yield Case("directed:falsy-children", None, None, True, "Tup((Un(Falsy), Opt(Falsy), Falsy, Tup(()))).duplicate()",
+        yield Case("directed:falsy-children", None, None, True, "Tup((Un(Falsy), Opt(Falsy), Falsy, Tup(()))).duplicate()" + cfg_note,
                    oracle_fail=f2, sig="copy|directed|falsy-children")
         del tree, dd, fz
         yield Case("directed:opaque-values", None, None, True,
